@@ -1,5 +1,6 @@
 """C09 — layout between tokens never changes the result."""
 import json
+import os
 
 import canon
 import gen_prog
@@ -12,7 +13,7 @@ TECHNIQUE = 'Lean 4: stream theorems (no layout token is handed out, any layout 
 LEAN_TARGET = "CxxModel.Props.C09"
 THEOREMS = ["Cxx.C09_discard_sets_are_layout", "Cxx.C09_popSignificant_skips_layout", "Cxx.C09_popSignificant_not_layout", "Cxx.C09_next_ignores_layout_prefix",
             "Cxx.C09_layout_sim", "Cxx.C09_parser_layout", "Cxx.C09_same_callbacks", "Cxx.C09_prelexed_locations_irrelevant", "Cxx.rbnd_bisim", "Cxx.interp_flag",
-            "Cxx.discard_sets_are_layout"]
+            "Cxx.discard_sets_are_layout", "Cxx.C09_layout_in_buffer_invisible", "Cxx.C09_yields_respects_layout"]
 ANCHORS = ["lexer.py:", "parser.py:CxxParser._process_pragma_directive", "parser.py:CxxParser._process_include_directive", "lex.py:Lexer.token",
            "parser.py:CxxParser.parse", "parser.py:CxxParser._parse_template", "parser.py:CxxParser._parse_template_decl", "parser.py:CxxParser._parse_cv_ptr_or_fn"]
 RULE = ("every token gap (quick: a sample of gaps) of every valid input without documentation comments (test corpus, generated "
@@ -20,6 +21,7 @@ RULE = ("every token gap (quick: a sample of gaps) of every valid input without 
         "multi-line comments, backslash-newline and concatenations); result = full callback stream without line numbers; "
         "non-trivial = gap between two tokens of one declaration")
 CARRIED_BY = {
+    "layout tokens waiting in the line buffer are invisible to token_eof_ok; stream states that differ only in them yield the same token sequences": "theorems C09_layout_in_buffer_invisible, C09_yields_respects_layout",
     "the token-stream operations never hand out layout tokens and skip any layout prefix": "theorems C09_popSignificant_skips_layout, C09_next_ignores_layout_prefix, C09_discard_sets_are_layout (regenerated sets)",
     "the parser observes the text only through the stream operations: stream states no operation can tell apart give the same callbacks, payloads, result and parser state for every client program": "theorem C09_layout_sim (generic, bisimulation argument) + C09_parser_layout / C09_same_callbacks (instance at the parser model); concrete bisimulation: C09_prelexed_locations_irrelevant",
     "two texts with the same significant tokens give stream states that no operation can tell apart (the lexer side)": "NOT a theorem: correspondence `parse[relayout]` + oracle `relayout` on the implementation",
@@ -66,68 +68,96 @@ def directive_line(text, pos):
     return line.lstrip().startswith("#")
 
 
+def relayout_input(job):
+    """all the relayouts of one input; returns (cases, counted keys, failures, unchanged relayouts)"""
+    t, tier, escalated, seed = job
+    import random
+    rng = random.Random(seed)
+    n = 0
+    counted = []
+    fails = []
+    same = []
+    try:
+        g, toks = gaps_of(t)
+    except Exception:  # noqa
+        return n, counted, fails, same
+    base = impl.impl_parse(t, "f.h")
+    if base["result"]["k"] != "ok":
+        return n, counted, fails, same
+    bview = view(base)
+    positions = [(a, b, tk) for a, b, tk in g]
+    choose = positions if tier == "thorough" else rng.sample(positions, min(len(positions), 10 if escalated else 6))
+    for a, b, tk in choose:
+        on_directive = directive_line(t, max(0, b - 1)) or directive_line(t, b)
+        if on_directive:
+            # the end of a directive line is significant: only blanks / block comments inside the line
+            lays = [" ", "\t", " /* c */ "]
+        else:
+            lays = gen_text.LAYOUTS if tier == "thorough" else rng.sample(gen_text.LAYOUTS, 6 if escalated else 4)
+        for lay in lays:
+            n += 1
+            pos = b
+            if on_directive and tk.type in ("PRAGMA_DIRECTIVE", "INCLUDE_DIRECTIVE"):
+                continue  # nothing precedes the directive token on its line but blanks
+            t2 = t[:pos] + lay + t[pos:]
+            counted.append(((t, pos, lay), a > 0))
+            r2 = impl.impl_parse(t2, "f.h")
+            if view(r2) != bview:
+                f = {"input": t2, "original": t, "gap_at": pos, "layout": lay,
+                     "diff": "result changed by layout %r before token %r: %s" % (lay, tk.value, str(canon.first_diff(json.loads(bview), json.loads(view(r2))))[:250])}
+                le = t.find("\n", pos)
+                at_line_end = t[pos: le if le >= 0 else len(t)].strip() == ""
+                if on_directive and at_line_end and directive_line(t, max(0, pos - 1)):
+                    # the listed finding is about layout before the END of a directive line only
+                    f["finding"] = "C09-directive-line"
+                elif "\\\n" in lay and (pos == 0 or t[:pos].rstrip(" \t").endswith("\n") or t[:pos].strip() == "") and lay.lstrip(" \t").startswith("\\"):
+                    f["finding"] = "C09-lone-continuation"
+                fails.append(f)
+            elif rng.random() < 0.3:
+                same.append(t2)
+    # a comment (or CR) placed before the end of a #pragma / #include line changes nothing
+    lines = t.split("\n")
+    off = 0
+    for li, line in enumerate(lines):
+        if line.lstrip().startswith("#pragma") or line.lstrip().startswith("#include"):
+            for lay in (" // c", " /* c */", "\r", "  "):
+                n += 1
+                pos = off + len(line)
+                t2 = t[:pos] + lay + t[pos:]
+                r2 = impl.impl_parse(t2, "f.h")
+                if view(r2) != bview:
+                    fails.append({"input": t2, "original": t, "gap_at": pos, "layout": lay, "finding": "C09-directive-line",
+                                  "diff": "%r before the end of the directive line %r changes the result" % (lay, line.strip())})
+        off += len(line) + 1
+    return n, counted, fails, same
+
+
 def run(ctx):
     rng = ctx.rng("layout")
     inputs = [t for t in pcommon.corpus() if not has_doc(t) and "\\\n" not in t]
-    for _ in range(ctx.budget(60, 3000)):
+    for _ in range(ctx.budget(60, 400)):
         inputs.append(gen_prog.gen_program(rng, budget=5)[0])
         inputs.append(gen_prog.gen_class_program(rng)[0])
+    jobs = [(t, ctx.tier, ctx.escalated, rng.getrandbits(48)) for t in inputs]
+    if ctx.tier == "thorough":
+        # every gap x every layout of every input: spread over the cores
+        import multiprocessing
+        with multiprocessing.get_context("fork").Pool(min(14, os.cpu_count() or 1)) as pool:
+            results = pool.map(relayout_input, jobs, chunksize=4)
+    else:
+        results = [relayout_input(j) for j in jobs]
     fails = []
     n = 0
     relayouts = []
-    for t in inputs:
-        try:
-            g, toks = gaps_of(t)
-        except Exception:  # noqa
-            continue
-        base = impl.impl_parse(t, "f.h")
-        if base["result"]["k"] != "ok":
-            continue
-        bview = view(base)
-        positions = [(a, b, tk) for a, b, tk in g]
-        choose = positions if ctx.tier == "thorough" else rng.sample(positions, min(len(positions), 10 if ctx.escalated else 6))
-        for a, b, tk in choose:
-            on_directive = directive_line(t, max(0, b - 1)) or directive_line(t, b)
-            if on_directive:
-                # the end of a directive line is significant: only blanks / block comments inside the line
-                lays = [" ", "\t", " /* c */ "]
-            else:
-                lays = gen_text.LAYOUTS if ctx.tier == "thorough" else rng.sample(gen_text.LAYOUTS, 6 if ctx.escalated else 4)
-            for lay in lays:
-                n += 1
-                pos = b
-                if on_directive and tk.type in ("PRAGMA_DIRECTIVE", "INCLUDE_DIRECTIVE"):
-                    continue  # nothing precedes the directive token on its line but blanks
-                t2 = t[:pos] + lay + t[pos:]
-                ctx.count((t, pos, lay), nontrivial=a > 0)
-                r2 = impl.impl_parse(t2, "f.h")
-                if view(r2) != bview:
-                    f = {"input": t2, "original": t, "gap_at": pos, "layout": lay,
-                         "diff": "result changed by layout %r before token %r: %s" % (lay, tk.value, str(canon.first_diff(json.loads(bview), json.loads(view(r2))))[:250])}
-                    le = t.find("\n", pos)
-                    at_line_end = t[pos: le if le >= 0 else len(t)].strip() == ""
-                    if on_directive and at_line_end and directive_line(t, max(0, pos - 1)):
-                        # the listed finding is about layout before the END of a directive line only
-                        f["finding"] = "C09-directive-line"
-                    elif "\\\n" in lay and (pos == 0 or t[:pos].rstrip(" \t").endswith("\n") or t[:pos].strip() == "") and lay.lstrip(" \t").startswith("\\"):
-                        f["finding"] = "C09-lone-continuation"
-                    fails.append(f)
-                elif len(relayouts) < ctx.budget(400, 6000) and rng.random() < 0.3:
-                    relayouts.append(t2)
-        # a comment (or CR) placed before the end of a #pragma / #include line changes nothing
-        lines = t.split("\n")
-        off = 0
-        for li, line in enumerate(lines):
-            if line.lstrip().startswith("#pragma") or line.lstrip().startswith("#include"):
-                for lay in (" // c", " /* c */", "\r", "  "):
-                    n += 1
-                    pos = off + len(line)
-                    t2 = t[:pos] + lay + t[pos:]
-                    r2 = impl.impl_parse(t2, "f.h")
-                    if view(r2) != bview:
-                        fails.append({"input": t2, "original": t, "gap_at": pos, "layout": lay, "finding": "C09-directive-line",
-                                      "diff": "%r before the end of the directive line %r changes the result" % (lay, line.strip())})
-            off += len(line) + 1
+    cap = ctx.budget(400, 6000)
+    for cases, counted, fl, same in results:
+        n += cases
+        for key, nontrivial in counted:
+            ctx.count(key, nontrivial=nontrivial)
+        fails.extend(fl)
+        for t2 in same:
+            if len(relayouts) < cap:
+                relayouts.append(t2)
     kn = {}
     for f in fails:
         if f.get("finding"):
